@@ -3,6 +3,7 @@ package main
 import (
 	"fmt"
 	"go/token"
+	"go/types"
 	"sort"
 	"strings"
 
@@ -451,5 +452,669 @@ func nestedArraySelectionRule(c *Ctx, r *Report, p *Prov, rule string) {
 	}
 	if n == 0 {
 		r.Undecided(rule, "array-walker:recursion", "-", "no array walker that calls itself for nested arrays was found (anchor lost)")
+	}
+}
+
+// evalStringPredicate interprets a package predicate over string parameters that consists of
+// comparisons of its parameters with constants, boolean connectives, branches and constant
+// returns (a `switch parent { case "$binary": return key == "base64" || ... }`), on concrete
+// argument strings - by reading its SSA, never by running it. ok is false when the function
+// uses anything else.
+func evalStringPredicate(fn *ssa.Function, args []string) (result bool, ok bool) {
+	if len(fn.Blocks) == 0 || len(args) != len(fn.Params) {
+		return false, false
+	}
+	type val struct {
+		isStr bool
+		s     string
+		b     bool
+	}
+	env := map[ssa.Value]val{}
+	for i, p := range fn.Params {
+		env[p] = val{isStr: true, s: args[i]}
+	}
+	get := func(v ssa.Value) (val, bool) {
+		if x, has := env[v]; has {
+			return x, true
+		}
+		if s, isC := constString(v); isC {
+			return val{isStr: true, s: s}, true
+		}
+		if b, isC := constBool(v); isC {
+			return val{b: b}, true
+		}
+		return val{}, false
+	}
+	b := fn.Blocks[0]
+	var pred *ssa.BasicBlock
+	for steps := 0; steps < 500; steps++ {
+		for _, in := range b.Instrs {
+			switch x := in.(type) {
+			case *ssa.DebugRef:
+			case *ssa.Phi:
+				for i, p := range b.Preds {
+					if p == pred {
+						v, okV := get(x.Edges[i])
+						if !okV {
+							return false, false
+						}
+						env[x] = v
+					}
+				}
+			case *ssa.BinOp:
+				l, ok1 := get(x.X)
+				r, ok2 := get(x.Y)
+				if !ok1 || !ok2 {
+					return false, false
+				}
+				switch {
+				case x.Op == token.EQL && l.isStr && r.isStr:
+					env[x] = val{b: l.s == r.s}
+				case x.Op == token.NEQ && l.isStr && r.isStr:
+					env[x] = val{b: l.s != r.s}
+				case x.Op == token.EQL && !l.isStr && !r.isStr:
+					env[x] = val{b: l.b == r.b}
+				case x.Op == token.NEQ && !l.isStr && !r.isStr:
+					env[x] = val{b: l.b != r.b}
+				case x.Op == token.AND && !l.isStr && !r.isStr:
+					env[x] = val{b: l.b && r.b}
+				case x.Op == token.OR && !l.isStr && !r.isStr:
+					env[x] = val{b: l.b || r.b}
+				default:
+					return false, false
+				}
+			case *ssa.UnOp:
+				if x.Op != token.NOT {
+					return false, false
+				}
+				v, okV := get(x.X)
+				if !okV || v.isStr {
+					return false, false
+				}
+				env[x] = val{b: !v.b}
+			case *ssa.If:
+				v, okV := get(x.Cond)
+				if !okV || v.isStr {
+					return false, false
+				}
+				pred = b
+				if v.b {
+					b = b.Succs[0]
+				} else {
+					b = b.Succs[1]
+				}
+			case *ssa.Jump:
+				pred = b
+				b = b.Succs[0]
+			case *ssa.Return:
+				if len(x.Results) != 1 {
+					return false, false
+				}
+				v, okV := get(x.Results[0])
+				if !okV || v.isStr {
+					return false, false
+				}
+				return v.b, true
+			default:
+				return false, false
+			}
+		}
+	}
+	return false, false
+}
+
+// wrapperPredicateTableRule (C05-R2): the predicate that spares the member names of
+// extended-JSON wrappers is evaluated (by the checker, on its SSA) on every pair of
+// {wrapper names, a foreign parent} x {member names, a foreign key}: it must say yes for
+// $binary.base64 / subType, $regularExpression.pattern / options, $timestamp.t / i and for
+// nothing else.
+func wrapperPredicateTableRule(c *Ctx, r *Report, pred *ssa.Function, rule string) {
+	if pred == nil || len(pred.Params) != 2 {
+		return
+	}
+	want := map[string][]string{"$binary": {"base64", "subType"}, "$regularExpression": {"pattern", "options"}, "$timestamp": {"t", "i"}}
+	parents := []string{"$binary", "$regularExpression", "$timestamp", "$set", "address", ""}
+	keys := []string{"base64", "subType", "pattern", "options", "t", "i", "name", "$oid", ""}
+	var wrong []string
+	n := 0
+	for _, pa := range parents {
+		for _, k := range keys {
+			got, ok := evalStringPredicate(pred, []string{pa, k})
+			if !ok {
+				r.Undecided(rule, pred.Name()+":wrapper-member-table", c.Pos(pred.Pos()), "the wrapper-member predicate is not a table of string comparisons the checker can evaluate")
+				return
+			}
+			n++
+			exp := false
+			for _, m := range want[pa] {
+				if m == k {
+					exp = true
+				}
+			}
+			if got != exp {
+				wrong = append(wrong, fmt.Sprintf("(%q, %q) -> %v", pa, k, got))
+			}
+		}
+	}
+	r.Check(len(wrong) == 0, rule, pred.Name()+":wrapper-member-table", c.Pos(pred.Pos()),
+		fmt.Sprintf("the predicate answers yes exactly for the member names of $binary, $regularExpression and $timestamp (%d pairs evaluated on its SSA)", n),
+		"the wrapper-member predicate answers wrongly for "+strings.Join(wrong, ", ")+": a wrapper member it does not know is renamed under --redactFieldNames (the typed value falls apart), a pair it wrongly knows keeps a user field name in clear")
+}
+
+// boolRoleRule (C04-R4 / C14-R2 / C15-R2): the walkers pass three switches down the tree - "rename
+// field names" (the per-line field-name mode), "this is a search stage" (which vocabulary the
+// lookup uses: index names, limits and paths are kept or not by it) and "a '$field' sibling
+// selected this array" (selective mode). All three are bools, so any mix-up compiles. The roles are
+// inferred from where a parameter ends up - the scalar step's lookup call (search), the scalar
+// step's other switch (selection), the guard of a HashName rename (field names) - and carried
+// backwards through the call sites; then (1) no parameter may have two roles, (2) no walker may
+// hand a constant `true` to a search / selection / field-name parameter.
+func boolRoleRule(c *Ctx, r *Report, p *Prov, scalarFn *ssa.Function, lookupFns map[*ssa.Function]bool, rule string) {
+	if scalarFn == nil {
+		return
+	}
+	hn := c.Fn("HashName")
+	type roleSet map[string]string // role -> where it came from
+	roles := map[*ssa.Parameter]roleSet{}
+	add := func(prm *ssa.Parameter, role, where string) bool {
+		if roles[prm] == nil {
+			roles[prm] = roleSet{}
+		}
+		if _, has := roles[prm][role]; has {
+			return false
+		}
+		roles[prm][role] = where
+		return true
+	}
+	inScope := func(f *ssa.Function) bool { return p.Zone[f] || f == scalarFn }
+	// seeds: the scalar step
+	var searchPrm *ssa.Parameter
+	for _, call := range callsIn(scalarFn, func(k string, cc *ssa.Call) bool { g := cc.Call.StaticCallee(); return g != nil && lookupFns[g] }) {
+		for _, a := range call.Call.Args {
+			if prm, ok := peel(a).(*ssa.Parameter); ok && isBoolType(prm.Type()) && prm.Parent() == scalarFn {
+				searchPrm = prm
+			}
+		}
+	}
+	if searchPrm == nil {
+		r.Undecided(rule, scalarFn.Name()+":bool-roles", c.Pos(scalarFn.Pos()), "the scalar step's search switch (the bool it hands to the table lookup) was not found")
+		return
+	}
+	add(searchPrm, "search", "handed to the table lookup in "+scalarFn.Name())
+	for _, prm := range scalarFn.Params {
+		if isBoolType(prm.Type()) && prm != searchPrm {
+			add(prm, "selection", "the scalar step's selection switch")
+		}
+	}
+	// seeds: walkers' own lookups and rename guards
+	var fns []*ssa.Function
+	for f := range p.Zone {
+		fns = append(fns, f)
+	}
+	sort.Slice(fns, func(i, j int) bool { return fns[i].Name() < fns[j].Name() })
+	for _, f := range fns {
+		for _, call := range callsIn(f, func(k string, cc *ssa.Call) bool { g := cc.Call.StaticCallee(); return g != nil && lookupFns[g] }) {
+			for _, a := range call.Call.Args {
+				if prm, ok := peel(a).(*ssa.Parameter); ok && isBoolType(prm.Type()) && prm.Parent() == f {
+					add(prm, "search", "handed to the table lookup in "+f.Name())
+				}
+			}
+		}
+		if hn != nil {
+			for _, call := range callsIn(f, func(k string, cc *ssa.Call) bool { return cc.Call.StaticCallee() == hn }) {
+				for _, ft := range allFacts(call.Block()) {
+					if prm, ok := peel(ft.Cond).(*ssa.Parameter); ok && ft.Pol && isBoolType(prm.Type()) && prm.Parent() == f {
+						add(prm, "field-names", "guards a rename in "+f.Name())
+					}
+				}
+			}
+		}
+	}
+	// propagate backwards through the call sites
+	for changed, iter := true, 0; changed && iter < 20; iter++ {
+		changed = false
+		for _, f := range append(fns, scalarFn) {
+			allInstrs(f, func(i ssa.Instruction) {
+				call, ok := i.(*ssa.Call)
+				if !ok {
+					return
+				}
+				g := c.staticPkgCallee(&call.Call)
+				if g == nil || !inScope(g) {
+					return
+				}
+				for ai, a := range call.Call.Args {
+					if ai >= len(g.Params) {
+						continue
+					}
+					cp := g.Params[ai]
+					prm, isP := peel(a).(*ssa.Parameter)
+					if !isP || prm.Parent() != f || !isBoolType(prm.Type()) {
+						continue
+					}
+					for role := range roles[cp] {
+						if add(prm, role, fmt.Sprintf("handed to %s's %s parameter at %s", g.Name(), role, c.InstrPos(i))) {
+							changed = true
+						}
+					}
+				}
+			})
+		}
+	}
+	n := 0
+	var prms []*ssa.Parameter
+	for prm := range roles {
+		prms = append(prms, prm)
+	}
+	sort.Slice(prms, func(i, j int) bool {
+		if prms[i].Parent().Name() != prms[j].Parent().Name() {
+			return prms[i].Parent().Name() < prms[j].Parent().Name()
+		}
+		return prms[i].Name() < prms[j].Name()
+	})
+	for _, prm := range prms {
+		rs := roles[prm]
+		n++
+		var names []string
+		for role := range rs {
+			names = append(names, role)
+		}
+		sort.Strings(names)
+		idx := -1
+		for i, q := range prm.Parent().Params {
+			if q == prm {
+				idx = i
+			}
+		}
+		construct := fmt.Sprintf("%s:bool-parameter#%d-has-one-role", prm.Parent().Name(), idx)
+		var wheres []string
+		for _, role := range names {
+			wheres = append(wheres, role+": "+rs[role])
+		}
+		r.Check(len(rs) == 1, rule, construct, c.Pos(prm.Pos()), "travels as the "+names[0]+" switch only",
+			"one boolean parameter travels in two roles ("+strings.Join(wheres, "; ")+"): two switches of the same type were crossed at a call site, so one mode is switched on by the other's flag")
+	}
+	// constants (inside the lookup helpers a constant is the branch of the helper's own search
+	// parameter, `if isSearchStage { lookup(..., true) }` - not a walker's decision)
+	for _, f := range fns {
+		if lookupFns[f] {
+			continue
+		}
+		allInstrs(f, func(i ssa.Instruction) {
+			call, ok := i.(*ssa.Call)
+			if !ok {
+				return
+			}
+			g := c.staticPkgCallee(&call.Call)
+			if g == nil || !inScope(g) {
+				return
+			}
+			for ai, a := range call.Call.Args {
+				if ai >= len(g.Params) || len(roles[g.Params[ai]]) == 0 {
+					continue
+				}
+				if b, isC := constBool(a); isC && b {
+					var names []string
+					for role := range roles[g.Params[ai]] {
+						names = append(names, role)
+					}
+					sort.Strings(names)
+					n++
+					r.Bad(rule, fmt.Sprintf("%s:constant-true-for(%s.%s)", f.Name(), g.Name(), strings.Join(names, "+")), c.InstrPos(i),
+						"a walker switches the "+strings.Join(names, " / ")+" mode on with a constant: the mode then holds whatever the line, the stage and the flags say (search vocabulary for an ordinary filter keeps members it calls index names or limits; selection without a matching name redacts what selective mode must keep; renaming without the flag)")
+				}
+			}
+		})
+	}
+	r.Analysed["bool_role_parameters"] = len(prms)
+	if len(prms) < 6 {
+		r.Bad(rule, "bool-roles:anchor", "-", fmt.Sprintf("anchor lost: only %d role-carrying boolean parameters found in the walkers (about 12 today)", len(prms)))
+	}
+}
+
+// lookupFunctions: the table-lookup helpers by role - a function of the zone that takes a key
+// path ([]string) and returns (entry, found) - and what only they call.
+func (c *Ctx) lookupFunctions(p *Prov) map[*ssa.Function]bool {
+	out := map[*ssa.Function]bool{}
+	for f := range p.Zone {
+		res := f.Signature.Results()
+		if res.Len() != 2 || !isEmptyInterface(res.At(0).Type()) || !isBoolType(res.At(1).Type()) {
+			continue
+		}
+		hasPath := false
+		for _, prm := range f.Params {
+			if isStringSliceT(prm.Type()) {
+				hasPath = true
+			}
+		}
+		if hasPath {
+			for g := range c.pkgReach(f) {
+				out[g] = true
+			}
+		}
+	}
+	return out
+}
+
+// resultAfterErrorCheckRule (C07-R1): on the line path a package function that returns
+// (value, error) hands back a meaningless value (nil map, nil slice) together with its error. Every
+// use of the value therefore lies where the error was found nil - in a block dominated by the nil
+// branch of a test of that very error. The scan loop that serialises the redactor's result without
+// having looked at the redactor's error calls Front() on a nil map for every line that is not a
+// JSON object: one such line ends the run with a panic.
+func resultAfterErrorCheckRule(c *Ctx, r *Report, fns []*ssa.Function, rule string, withSlices ...bool) {
+	resultAfterErrorCheckRuleFor(c, r, fns, rule, nil, withSlices...)
+}
+
+// resultAfterErrorCheckRuleFor: the same, for the calls of the given callees only (nil: all).
+func resultAfterErrorCheckRuleFor(c *Ctx, r *Report, fns []*ssa.Function, rule string, only map[*ssa.Function]bool, withSlices ...bool) {
+	n := 0
+	for _, f := range fns {
+		allInstrs(f, func(i ssa.Instruction) {
+			call, ok := i.(*ssa.Call)
+			if !ok {
+				return
+			}
+			g := c.staticPkgCallee(&call.Call)
+			if g == nil || (only != nil && !only[g]) {
+				return
+			}
+			res := g.Signature.Results()
+			if res.Len() != 2 || !isErrorType(res.At(1).Type()) {
+				return
+			}
+			val := extractOf(call, 0)
+			if val == nil {
+				return
+			}
+			// only values whose zero value cannot be used: pointers, maps, slices, interfaces
+			switch res.At(0).Type().Underlying().(type) {
+			case *types.Pointer, *types.Map, *types.Interface:
+			case *types.Slice:
+				// a nil slice does not panic, but it is not the result either (the ciphertext of a
+				// failed encryption is nothing): judged where the caller asks for it
+				if len(withSlices) == 0 || !withSlices[0] {
+					return
+				}
+			default:
+				return
+			}
+			var tests []errTest
+			for _, ev := range errorResults(call) {
+				tests = append(tests, errTestsOf(ev)...)
+			}
+			var bad []string
+			nUses := 0
+			for _, al := range aliasesOf(val) {
+				for _, use := range referrers(al) {
+					switch use.(type) {
+					case *ssa.DebugRef, *ssa.Store:
+						continue
+					}
+					if bo, isB := use.(*ssa.BinOp); isB {
+						if _, _, isNil := nilCompare(bo); isNil {
+							continue // a nil test of the value itself
+						}
+					}
+					nUses++
+					blk := use.Block()
+					if ph, isPhi := use.(*ssa.Phi); isPhi {
+						// judged at the incoming edge
+						for ei, e := range ph.Edges {
+							if e == al {
+								blk = ph.Block().Preds[ei]
+							}
+						}
+					}
+					okUse := false
+					for _, t := range tests {
+						if t.NilSucc != nil && (t.NilSucc == blk || t.NilSucc.Dominates(blk)) && !(t.NonNilSucc == t.NilSucc) {
+							okUse = true
+						}
+						// `if err != nil { ...; continue / return }` with the use after the if: the
+						// non-nil branch never reaches the use
+						if t.NonNilSucc != nil && !reachesAvoiding(t.NonNilSucc, blk, t.If.Block()) && t.If.Block().Dominates(blk) {
+							okUse = true
+						}
+					}
+					if !okUse {
+						bad = append(bad, c.InstrPos(use))
+					}
+				}
+			}
+			if nUses == 0 {
+				return
+			}
+			n++
+			sort.Strings(bad)
+			r.Check(len(bad) == 0, rule, fmt.Sprintf("%s:result-of(%s)-used-after-its-error-check", f.Name(), g.Name()), c.InstrPos(call),
+				fmt.Sprintf("every use of the value (%d) lies where the error was found nil", nUses),
+				"the value returned by "+g.Name()+" is used at "+strings.Join(bad, ", ")+" although its error has not been found nil there: for input on which "+g.Name()+" fails the value is nil, and the first method call on it panics (a line that is not a JSON object ends the run)")
+		})
+	}
+	r.Analysed["value_error_pairs_checked"] = n
+}
+
+// reachesAvoiding: can `to` be reached from `from` without passing through `avoid`?
+func reachesAvoiding(from, to, avoid *ssa.BasicBlock) bool {
+	seen := map[*ssa.BasicBlock]bool{}
+	var walk func(b *ssa.BasicBlock) bool
+	walk = func(b *ssa.BasicBlock) bool {
+		if b == to {
+			return true
+		}
+		if seen[b] || b == avoid {
+			return false
+		}
+		seen[b] = true
+		for _, s := range b.Succs {
+			if walk(s) {
+				return true
+			}
+		}
+		return false
+	}
+	return walk(from)
+}
+
+// namespaceDocumentRule (C12-R4): the document form of a namespace argument ({db, coll} under
+// $merge.into / $out) is rebuilt by a helper: it passes over every member of the document, stores
+// the pseudonym of every member that is a string and keeps only members that are not strings
+// as they are.
+func namespaceDocumentRule(c *Ctx, r *Report, p *Prov, rule string) {
+	hn := c.Fn("HashName")
+	if hn == nil {
+		return
+	}
+	n := 0
+	for _, f := range c.SortedFuncs() {
+		if !p.Zone[f] && !p.Scope[f] {
+			continue
+		}
+		if len(f.Params) != 1 || !isOrderedMapPtr(f.Params[0].Type()) || f.Signature.Results().Len() != 1 || !isOrderedMapPtr(f.Signature.Results().At(0).Type()) {
+			continue
+		}
+		if len(callsIn(f, func(k string, cc *ssa.Call) bool { return cc.Call.StaticCallee() == hn })) == 0 {
+			continue
+		}
+		n++
+		construct := f.Name() + ":namespace-document"
+		var loop *IterLoop
+		for _, l := range iterLoops(f) {
+			if l.Kind == "omap" && peel(l.Coll) == ssa.Value(f.Params[0]) {
+				loop = l
+			}
+		}
+		if loop == nil {
+			r.Bad(rule, construct+":covers-every-member", c.Pos(f.Pos()), "the helper does not pass over the members of the namespace document from Front() while the element is not nil: members (db, coll) are dropped or never reached")
+			continue
+		}
+		var bad []string
+		nSets := 0
+		for b := range loop.Loop.Body {
+			for _, in := range b.Instrs {
+				call, ok := in.(*ssa.Call)
+				if !ok || calleeKey(&call.Call) != omMethod("Set") || len(call.Call.Args) != 3 {
+					continue
+				}
+				nSets++
+				// the stored value may be decided on the way (`member := el.Value; if string {
+				// member = HashName(...) }`): every source is judged with the facts of the edge
+				// that delivers it
+				for _, vs := range sourcesAt(call.Call.Args[2], call.Block()) {
+					v := peel(canon(vs.Val))
+					fs := allFacts(call.Block())
+					if vs.At != nil {
+						fs = append(fs, allFacts(vs.At)...)
+						if vs.To != nil && len(vs.At.Instrs) > 0 {
+							if ifi, okI := vs.At.Instrs[len(vs.At.Instrs)-1].(*ssa.If); okI && vs.At.Succs[0] != vs.At.Succs[1] {
+								fs = append(fs, Fact{ifi.Cond, vs.At.Succs[0] == vs.To, ifi})
+							}
+						}
+					}
+					isString, notString := false, false
+					for _, ft := range fs {
+						ex, isEx := peel(ft.Cond).(*ssa.Extract)
+						if !isEx || ex.Index != 1 {
+							continue
+						}
+						ta, isTA := ex.Tuple.(*ssa.TypeAssert)
+						if !isTA || !isStringType(ta.AssertedType) {
+							continue
+						}
+						if e2, nm, isLd := elemFieldLoad(peel(canon(ta.X))); isLd && nm == "Value" && e2 == loop.Elem {
+							if ft.Pol {
+								isString = true
+							} else {
+								notString = true
+							}
+						}
+					}
+					if hc, isCall := v.(*ssa.Call); isCall && hc.Call.StaticCallee() == hn {
+						if !isString {
+							bad = append(bad, "a pseudonym is stored where the member is not known to be a string ("+c.InstrPos(in)+")")
+						}
+						continue
+					}
+					if _, nm, isLd := elemFieldLoad(v); isLd && nm == "Value" {
+						if !notString {
+							bad = append(bad, "the member is stored as it is although it may be a string: the database / collection name stays in clear ("+c.InstrPos(in)+")")
+						}
+						continue
+					}
+					bad = append(bad, "something other than the member or its pseudonym is stored ("+c.InstrPos(in)+")")
+				}
+			}
+		}
+		if nSets == 0 {
+			bad = append(bad, "nothing is stored in the loop")
+		}
+		r.Check(len(bad) == 0, rule, construct, c.Pos(f.Pos()), "every string member is replaced by its pseudonym, other members are kept", strings.Join(bad, "; "))
+	}
+	if n == 0 {
+		r.Bad(rule, "namespace-document:anchor", "-", "anchor lost: no helper that rebuilds the document form of a namespace argument ({db, coll}) with pseudonyms")
+	}
+}
+
+// lookupRecursionRule (C01-R4): where the lookup meets an operator array it starts again, in the
+// operator vocabulary, with the REST of the path: `path[i+1:]` for the loop index i - one element
+// more or less and every position below $and / $or / compound.must is classified by the wrong
+// key. And the vocabulary it names goes with the search switch it passes: a constant `true`
+// only where the helper's own switch is on, `false` only where it is off.
+func lookupRecursionRule(c *Ctx, r *Report, p *Prov, lookupFns map[*ssa.Function]bool, rule string) {
+	n := 0
+	var fns []*ssa.Function
+	for f := range lookupFns {
+		fns = append(fns, f)
+	}
+	sort.Slice(fns, func(i, j int) bool { return fns[i].Name() < fns[j].Name() })
+	for _, f := range fns {
+		var pathPrm, searchPrm *ssa.Parameter
+		for _, prm := range f.Params {
+			if isStringSliceT(prm.Type()) {
+				pathPrm = prm
+			}
+			if isBoolType(prm.Type()) {
+				searchPrm = prm
+			}
+		}
+		loops := iterLoops(f)
+		for _, call := range callsIn(f, func(k string, cc *ssa.Call) bool { g := cc.Call.StaticCallee(); return g != nil && lookupFns[g] }) {
+			g := call.Call.StaticCallee()
+			for ai, a := range call.Call.Args {
+				if ai >= len(g.Params) {
+					continue
+				}
+				// the rest of the path
+				if sl, ok := peel(a).(*ssa.Slice); ok && pathPrm != nil && peel(sl.X) == ssa.Value(pathPrm) && isStringSliceT(g.Params[ai].Type()) {
+					n++
+					okLow := false
+					var l *IterLoop
+					for _, cand := range loops {
+						// (the call returns out of the loop: its block is in the loop's region, not its body)
+						if cand.Kind == "slice" && (cand.Loop.Body[call.Block()] || cand.Loop.Region()[call.Block()]) {
+							l = cand
+						}
+					}
+					if l != nil && sl.High == nil && sl.Low != nil {
+						if bo, isB := peel(sl.Low).(*ssa.BinOp); isB && bo.Op == token.ADD {
+							if one, isC := constInt(bo.Y); isC && one == 1 && peel(bo.X) == peel(l.Idx) {
+								okLow = true
+							}
+						}
+					}
+					r.Check(okLow, rule, fmt.Sprintf("%s:restarts-with-the-rest-of-the-path#%d", f.Name(), n), c.InstrPos(call),
+						"the lookup restarts with path[i+1:] for the loop index i",
+						"the lookup restarts below an operator array with something other than the rest of the path (path[i+1:]): the positions below $and / $or / compound clauses are classified by a neighbouring key")
+				}
+				// the search switch handed on as a constant
+				if b, isC := constBool(a); isC && isBoolType(g.Params[ai].Type()) && searchPrm != nil {
+					n++
+					agrees := false
+					for _, ft := range allFacts(call.Block()) {
+						if peel(ft.Cond) == ssa.Value(searchPrm) && ft.Pol == b {
+							agrees = true
+						}
+					}
+					r.Check(agrees, rule, fmt.Sprintf("%s:constant-search-switch-agrees#%d", f.Name(), n), c.InstrPos(call),
+						"the constant search switch handed on is the value the helper's own switch has on this path",
+						fmt.Sprintf("the lookup hands the constant %v on as the search switch where its own switch is not known to be %v: the vocabulary that is consulted and the switch that goes with it disagree", b, b))
+				}
+			}
+		}
+	}
+	r.Analysed["lookup_recursions"] = n
+}
+
+// detectorStripsDollarRule (C14-R1): the sibling detector compares the NAME behind a '$field'
+// reference with the configured expression: the reference without its leading '$' - exactly that
+// byte, exactly once (strings.TrimPrefix(s, "$") or s[1:] under the leading-'$' test).
+func detectorStripsDollarRule(c *Ctx, r *Report, p *Prov, rule string) {
+	for _, f := range c.SortedFuncs() {
+		if !(p.Zone[f] || p.Scope[f]) || len(f.Params) != 1 || !isAnySlice(f.Params[0].Type()) || f.Signature.Results().Len() != 1 || !isBoolType(f.Signature.Results().At(0).Type()) {
+			continue
+		}
+		for _, mc := range callsIn(f, func(k string, _ *ssa.Call) bool { return k == "(*regexp.Regexp).MatchString" }) {
+			arg := peel(mc.Call.Args[1])
+			okStrip, how := false, "the text matched is "+arg.String()
+			switch x := arg.(type) {
+			case *ssa.Call:
+				k := calleeKey(&x.Call)
+				if k == "strings.TrimPrefix" || k == "strings.TrimLeft" {
+					if sv, isC := constString(x.Call.Args[1]); isC && sv == "$" && k == "strings.TrimPrefix" {
+						okStrip, how = true, "strings.TrimPrefix(ref, \"$\")"
+					} else {
+						how = fmt.Sprintf("%s with %s", shortKey(k), x.Call.Args[1].String())
+					}
+				}
+			case *ssa.Slice:
+				if lo, isC := constInt(x.Low); isC && lo == 1 && x.High == nil {
+					okStrip, how = true, "ref[1:]"
+				}
+			}
+			r.Check(okStrip, rule, f.Name()+":matches-the-name-behind-the-reference", c.InstrPos(mc),
+				"the expression is applied to the reference without its leading '$' ("+how+")",
+				"the sibling detector does not apply the expression to the field name behind the '$field' reference ("+how+"): an anchored expression such as ^SSN$ no longer matches \"$SSN\", and the literal compared with that field stays in clear")
+		}
 	}
 }
